@@ -1,3 +1,244 @@
-//! C04 — not built yet.
+//! C04 — returned solutions are feasible and self-consistent.
+//!
+//! Per generated `LinearModel`: all five entry points are called in the killable worker (`child.rs`); each answer
+//! is (a) diffed against the Lean model of rooc's wrapper code applied to the external solver's RAW answer (obtained
+//! by the mirror kinds of the worker) and (b) sent to the exact oracle (`checkPoint` at 1e-6, objective incl. offset,
+//! one value per variable, named-row activities).  Pure helper functions that are public (`calc_objective`,
+//! `calc_constraints`, `make_constraints_map_from_assignment`, `LpSolution::new`/`value_of`, `as_lp_solution` through
+//! `Tableau::new`) are diffed in-process.
 use crate::case::Case;
-pub fn generate(_seed: u64, _n: usize, _thorough: bool, _corpus: Option<&str>) -> Vec<Case> { vec![] }
+use crate::child::{self, Opts, Outcome, SolverKind};
+use crate::gen_lp::{self, Doms, LpCfg};
+use crate::rng::Rng;
+use crate::sx;
+use rooc::{Assignment, LinearModel, LpSolution, Tableau};
+use std::time::Duration;
+
+pub const TIMEOUT: Duration = Duration::from_secs(3);
+
+pub fn special(r: &mut Rng) -> f64 {
+    match r.below(12) {
+        0 => 0.0, 1 => -0.0, 2 => 1.0, 3 => -1.0, 4 => 0.5, 5 => 1e-12, 6 => 2147483648.0, 7 => -2147483649.0,
+        8 => f64::NAN, 9 => f64::INFINITY, 10 => 0.1, _ => r.range(-40, 40) as f64 / 8.0,
+    }
+}
+
+/// cases of one model: one per entry point
+pub fn solver_cases(lm: &LinearModel, tags: &[String], stream: &str, variants: &gen_lp::Variants, out: &mut Vec<Case>) {
+    let lms = sx::lin_model(lm);
+    let opts = Opts::default();
+    // once one call on this model has hung, the remaining calls get a short limit (these models solve in microseconds)
+    let hung = std::cell::Cell::new(false);
+    let call = |k: SolverKind| {
+        let o = child::solve(k, lm, &opts, if hung.get() { Duration::from_millis(400) } else { TIMEOUT });
+        if matches!(o, Outcome::Hang) { hung.set(true); }
+        o
+    };
+    let raw_milp = call(SolverKind::RawMilp);
+    let cont = gen_lp::is_continuous(lm);
+    for kind in SolverKind::ENTRY_POINTS {
+        let o = call(kind);
+        let mut c = Case::default();
+        let res = gen_lp::result(&o);
+        c.imp = res.clone();
+        c.req = match kind {
+            SolverKind::Milp => gen_lp::mlp(&raw_milp).map(|r| format!("{} {} {}", if variants.milp_reads_status { "milp-wrap-fixed" } else { "milp-wrap" }, lms, r)),
+            SolverKind::Auto => gen_lp::mlp(&raw_milp).map(|r| format!("auto-wrap {} {}", lms, r)),
+            SolverKind::MicroLp => gen_lp::mlp(&call(SolverKind::RawMicroLp)).map(|r| format!("microlp-wrap {} {}", lms, r)),
+            SolverKind::Clarabel => gen_lp::clarabel_req(lm, &lms, variants, if hung.get() { Duration::from_millis(400) } else { TIMEOUT }),
+            _ => None,
+        }.unwrap_or_default();
+        if matches!(o, Outcome::Hang) { c.req.clear(); }
+        c.oracle = format!("check-solution {} {} {}", lms, kind.name(), res);
+        c.tags = tags.to_vec();
+        c.tags.push(format!("stream-{}", stream));
+        c.tags.push(format!("solver-{}", kind.name()));
+        c.tags.push(match &o {
+            Outcome::Solution(_) => "answer-solution".to_string(),
+            Outcome::Err { variant, .. } => format!("answer-err-{}", variant),
+            Outcome::Panic(_) => "answer-panic".into(),
+            Outcome::Hang => "answer-hang".into(),
+        });
+        c.tags.push(if cont { "model-continuous".into() } else { "model-mixed-integer".into() });
+        c.nontrivial = matches!(o, Outcome::Solution(_));
+        if let Outcome::Panic(m) = &o {
+            c.impl_violation = Some(format!("{} panicked instead of returning a solution or an error: {}", kind.name(), m));
+            c.sig = Some(if kind == SolverKind::Clarabel && lm.variables().is_empty() { "clarabel-panic-no-variables".into() } else { "panic".into() });
+        }
+        c.show = format!("{} on: {}", kind.name(), show_model(lm));
+        out.push(c);
+    }
+}
+
+pub fn show_model(lm: &LinearModel) -> String {
+    let dom = lm.domain().iter().map(|(n, d)| format!("{}: {}", n, d.get_type())).collect::<Vec<_>>().join(", ");
+    // Display of an ill-formed model (lengths that do not match) may panic: fall back to the wire form
+    let text = std::panic::catch_unwind(|| lm.to_string()).unwrap_or_else(|_| sx::lin_model(lm));
+    format!("{} || {} || offset {}", text.replace('\n', "; "), dom, lm.objective_offset())
+}
+
+fn pairs(l: &[(String, f64)]) -> String { l.iter().map(|(n, v)| format!("({} {})", sx::q(n), gen_lp::num(*v))).collect::<Vec<_>>().join(" ") }
+
+/// in-process diffs of the public pure helpers
+fn helper_cases(r: &mut Rng, lm: &LinearModel, out: &mut Vec<Case>) {
+    // calc_objective / calc_constraints / make_constraints_map_from_assignment (panic on a length mismatch)
+    let n = lm.variables().len();
+    let len = if r.chance(1, 8) { r.below(n + 2) } else { n };
+    let values: Vec<f64> = (0..len).map(|_| if r.chance(1, 3) { special(r) } else { r.range(-6, 6) as f64 }).collect();
+    let obj = std::panic::catch_unwind(|| lm.calc_objective(&values)).ok();
+    let cons = std::panic::catch_unwind(|| lm.calc_constraints(&values)).ok();
+    let map = std::panic::catch_unwind(|| rooc::make_constraints_map_from_assignment(lm, &values)).ok();
+    let mut c = Case::default();
+    c.req = format!("calc {} ({})", sx::lin_model(lm), sx::nums(&values));
+    c.imp = format!("(ok {} {} {})",
+        obj.map(gen_lp::num).unwrap_or_else(|| "panic".into()),
+        cons.map(|l| format!("({})", pairs(&l))).unwrap_or_else(|| "panic".into()),
+        map.map(|m| format!("({})", pairs(&m.into_iter().collect::<Vec<_>>()))).unwrap_or_else(|| "panic".into()));
+    c.tags = vec!["helper-calc".into(), if len == n { "calc-lengths-match".into() } else { "calc-length-mismatch".into() }];
+    c.nontrivial = len == n;
+    c.show = format!("calc_objective/calc_constraints({:?}) on {}", values, show_model(lm));
+    out.push(c);
+}
+
+fn assign_map_case(r: &mut Rng, out: &mut Vec<Case>) {
+    let names = ["x", "y", "x", "z", "", "y", "$px"];
+    let k = 1 + r.below(6);
+    let ps: Vec<(String, f64)> = (0..k).map(|_| (r.pick(&names).to_string(), r.range(-5, 5) as f64)).collect();
+    let sol = LpSolution::new(ps.iter().map(|(n, v)| Assignment { name: n.clone(), value: *v }).collect(), 0.0, Default::default());
+    // observe the by-name map through value_of on the distinct names, in first-occurrence order
+    let mut seen: Vec<String> = vec![];
+    for (n, _) in &ps { if !seen.contains(n) { seen.push(n.clone()); } }
+    let got: Vec<(String, f64)> = seen.iter().map(|n| (n.clone(), sol.value_of(n).unwrap())).collect();
+    let mut c = Case::default();
+    c.req = format!("assign-map ({})", pairs(&ps));
+    c.imp = format!("(ok{}{})", if got.is_empty() { "" } else { " " }, pairs(&got));
+    c.tags = vec!["helper-assign-map".into(), if seen.len() < ps.len() { "duplicate-names".into() } else { "distinct-names".into() }];
+    c.nontrivial = seen.len() < ps.len();
+    c.show = format!("LpSolution::new({:?}).value_of", ps);
+    out.push(c);
+}
+
+fn as_lp_solution_case(r: &mut Rng, out: &mut Vec<Case>) {
+    // standard-form variable names: user names, split halves, slack / surplus / artificial, and user names that collide
+    // with the internal prefixes
+    let pool = ["x", "y", "$px", "$mx", "$py", "$my", "$pz", "$mw", "$sl_0", "$su_1", "$a_2", "$p", "$m", "$sl_", "$pp", "$mp", "$p$mx", "$m$px", "x"];
+    let k = 1 + r.below(7);
+    let names: Vec<String> = (0..k).map(|_| r.pick(&pool).to_string()).collect();
+    let values: Vec<f64> = (0..k).map(|_| if r.chance(1, 5) { special(r) } else { r.range(0, 9) as f64 }).collect();
+    let cur = r.range(-5, 5) as f64;
+    let off = r.range(-3, 3) as f64;
+    let flip = r.chance(1, 2);
+    // an already optimal tableau whose basic solution is `values`: every variable basic in its own row
+    let a: Vec<Vec<f64>> = (0..k).map(|i| (0..k).map(|j| if i == j { 1.0 } else { 0.0 }).collect()).collect();
+    let mut t = Tableau::new(vec![0.0; k], a, values.clone(), (0..k).collect(), cur, off, names.clone(), flip);
+    let res = std::panic::catch_unwind(std::panic::AssertUnwindSafe(|| t.solve(5).map(|o| o.as_lp_solution())));
+    let mut c = Case::default();
+    // optimal_value(): -current_value * flip + offset
+    let value = -cur * (if flip { -1.0 } else { 1.0 }) + off;
+    c.req = format!("as-lp-solution ({}) ({}) {}", names.iter().map(|n| sx::q(n)).collect::<Vec<_>>().join(" "), sx::nums(&values), sx::num(value));
+    c.imp = match res {
+        Ok(Ok(s)) => {
+            let sol = crate::child::Sol {
+                status: match s.status() { rooc::SolutionStatus::Optimal => "optimal", rooc::SolutionStatus::Feasible => "feasible", rooc::SolutionStatus::Infeasible => "infeasible", rooc::SolutionStatus::Unbounded => "unbounded" }.into(),
+                value: s.value(),
+                assignment: s.assignment().iter().map(|a| (a.name.clone(), crate::child::Val::Real(a.value))).collect(),
+                by_name: names.iter().map(|n| (n.clone(), s.value_of(n).map(crate::child::Val::Real))).collect(),
+                constraints: s.constraints().iter().map(|(k, v)| (k.clone(), crate::child::F(*v))).collect(),
+                duals: s.shadow_prices().iter().map(|(k, v)| (k.clone(), crate::child::F(*v))).collect(),
+            };
+            gen_lp::solution(&sol)
+        }
+        Ok(Err(e)) => format!("(err {})", e),
+        Err(_) => "(panic)".into(),
+    };
+    c.tags = vec!["helper-as-lp-solution".into()];
+    if names.iter().any(|n| n.starts_with("$p") && names.contains(&format!("$m{}", &n[2..]))) { c.tags.push("split-recombined".into()); }
+    if names.iter().any(|n| n.starts_with("$sl_") || n.starts_with("$su_") || n.starts_with("$a_")) { c.tags.push("slack-dropped".into()); }
+    c.nontrivial = c.tags.len() > 1;
+    c.show = format!("as_lp_solution(names {:?}, values {:?})", names, values);
+    out.push(c);
+}
+
+/// a model without variables: every row is a constant comparison `0 ⋈ rhs` (auto_solver decides these itself)
+pub fn variable_free(r: &mut Rng) -> LinearModel {
+    use rooc::{Comparison, LinearConstraint, OptimizationType};
+    let rows = (0..r.below(4)).map(|k| {
+        let c = *r.pick(&[Comparison::LessOrEqual, Comparison::GreaterOrEqual, Comparison::Equal, Comparison::LessOrEqual, Comparison::GreaterOrEqual, Comparison::Equal, Comparison::Less, Comparison::Greater]);
+        let rhs = *r.pick(&[0.0, 0.0, 1.0, -1.0, -0.0, 2.5, f64::NAN]);
+        LinearConstraint::new_with_name(vec![], c, rhs, if k == 0 { "r".into() } else { String::new() })
+    }).collect();
+    let opt = r.pick(&[OptimizationType::Min, OptimizationType::Max, OptimizationType::Satisfy]).clone();
+    LinearModel::new_from_parts(vec![], opt, r.range(-3, 3) as f64, rows, vec![], Default::default())
+}
+
+/// user variables whose names collide with the prefixes `as_lp_solution` / the standardizer use internally
+pub fn prefixed_names(r: &mut Rng) -> LinearModel {
+    use rooc::{Comparison, OptimizationType, VariableType};
+    let pool = ["$sl_x", "$px", "$mx", "$a_1", "$su_0", "x", "$p", "y"];
+    let mut names: Vec<&str> = vec![];
+    for _ in 0..1 + r.below(3) { let n = *r.pick(&pool); if !names.contains(&n) { names.push(n); } }
+    let mut m = LinearModel::new();
+    for n in &names { m.add_variable(n, VariableType::NonNegativeReal(0.0, f64::INFINITY)); }
+    let k = names.len();
+    m.add_constraint((0..k).map(|_| 1.0 + r.below(2) as f64).collect(), Comparison::GreaterOrEqual, 1.0 + r.below(3) as f64);
+    m.set_objective((0..k).map(|_| 1.0 + r.below(3) as f64).collect(), OptimizationType::Min);
+    m
+}
+
+/// ill-formed models that only `LinearModel::new_from_parts` can build: every pre-check arm of the wrappers
+pub fn malformed(r: &mut Rng) -> (LinearModel, &'static str) {
+    use rooc::model_transformer::DomainVariable;
+    use rooc::{Comparison, LinearConstraint, OptimizationType, VariableType};
+    let (lm, _) = gen_lp::model(r, &LpCfg { doms: Doms::Continuous, max_rows: 3, ..LpCfg::default() });
+    let (mut obj, opt, off, mut rows, mut vars, mut dom) = lm.into_parts();
+    let kind = match r.below(6) {
+        0 => { obj.pop(); "objective-too-short" }
+        1 => { obj.push(1.0); "objective-too-long" }
+        2 => { rows.push(LinearConstraint::new(vec![1.0; vars.len() + 1], Comparison::LessOrEqual, 1.0)); "row-too-long" }
+        3 => { let c = if r.chance(1, 2) { Comparison::Less } else { Comparison::Greater }; rows.push(LinearConstraint::new(vec![1.0; vars.len()], c, 1.0)); "strict-row" }
+        4 => { vars.push("ghost".into()); obj.push(0.0); for row in rows.iter_mut() { row.ensure_size(vars.len()); } "variable-without-domain" }
+        _ => { dom.insert("extra".into(), DomainVariable::new(VariableType::Boolean, Default::default())); "domain-entry-without-variable" }
+    };
+    let _ = OptimizationType::Min;
+    (LinearModel::new_from_parts(obj, opt, off, rows, vars, dom), kind)
+}
+
+pub fn generate(seed: u64, n: usize, thorough: bool, _corpus: Option<&str>) -> Vec<Case> {
+    let mut r = Rng::new(seed);
+    let mut cases = vec![];
+    let streams: [(&str, LpCfg); 5] = [
+        ("mixed", LpCfg::default()),
+        ("continuous", LpCfg { doms: Doms::Continuous, ..LpCfg::default() }),
+        ("fractional", LpCfg { fractional: true, ..LpCfg::default() }),
+        ("integer", LpCfg { doms: Doms::Integer, ..LpCfg::default() }),
+        ("nonneg", LpCfg { doms: Doms::NonNeg, feasible_pct: 80, ..LpCfg::default() }),
+    ];
+    let _ = thorough;
+    let variants = gen_lp::detect_variants();
+    for i in 0..n {
+        let (name, cfg) = &streams[i % streams.len()];
+        let (lm, tags) = gen_lp::model(&mut r, cfg);
+        let mut tags = tags; tags.extend(variants.tags());
+        solver_cases(&lm, &tags, name, &variants, &mut cases);
+        helper_cases(&mut r, &lm, &mut cases);
+        assign_map_case(&mut r, &mut cases);
+        as_lp_solution_case(&mut r, &mut cases);
+        if i % 10 == 5 {
+            let lm = prefixed_names(&mut r);
+            solver_cases(&lm, &["prefixed-names".to_string()], "prefixed-names", &variants, &mut cases);
+        }
+        if i % 10 == 3 {
+            let (lm, kind) = malformed(&mut r);
+            let before = cases.len();
+            solver_cases(&lm, &["malformed".to_string(), format!("malformed-{}", kind)], "malformed", &variants, &mut cases);
+            // a panic on an ill-formed model (C08's territory) is recorded in the distribution, not as a C04 violation
+            for c in cases[before..].iter_mut() { c.impl_violation = None; c.sig = None; }
+        }
+        if i % 10 == 0 {
+            let lm = variable_free(&mut r);
+            solver_cases(&lm, &["variable-free".to_string()], "variable-free", &variants, &mut cases);
+        }
+    }
+    child::shutdown();
+    cases
+}
